@@ -325,7 +325,7 @@ def run_readers(ctx, own_kinds, what, note, nontrivial_desc):
     size = "quick" if quick else "thorough"
     cases = list(pe.corpus(ctx.prop)) + pe.generate(ctx.seed, "acyclic", ncases, size, prefix="r")
     spec = pe.specification(cases, driver)
-    out_root = os.path.join(common.BUILD, "par-traces", f"{ctx.prop}-{ctx.seed}")
+    out_root = os.path.join(common.BUILD, "par-traces", f"{ctx.prop}-{ctx.seed}-{os.getpid()}")
     shutil.rmtree(out_root, ignore_errors=True)
     os.makedirs(out_root)
     res, tdirs = explore(ctx, cases, harness, scheds, iters, out_root, trace_cap=4 if quick else 6)
@@ -405,7 +405,7 @@ def run_readers(ctx, own_kinds, what, note, nontrivial_desc):
         "trusted_base": common.TRUSTED_BASE_COMMON + [
             "shuttle 0.9.3 (PCT depth 3 and random schedulers, deadlock detection, step bound 200000) as the schedule controller of salsa's `shuttle` build",
             "hook H2 appends each protocol record while the critical section's locks are held; the harness' event callback counts WillExecute/WillBlockOn truthfully",
-            "the CFetch guards (publish/mark_verified store the from-scratch value, verified at the current revision): discharged over CFetch2 for static call lists and LOW durabilities (C16_memo_writes_sound); for dynamic call lists / the durability short-cut proved for one thread only (C01)",
+            "the CFetch guards (publish/mark_verified store the from-scratch value, verified at the current revision): discharged over CFetch2 for static call lists and LOW durabilities (C16_memo_writes_sound) and over CFetchD for dynamic call lists without the durability short-cut (C16_values_computed_dyn); with the short-cut proved for one thread only (C01)",
             "hook H10 (when present): each memo-table record is appended immediately after ONE atomic operation (memo pointer load, verified_at load, verified_at store, memo swap); under shuttle no scheduling point lies between the operation and the append (shuttle switches before an atomic access, the log's own mutex is a std mutex), with OS threads a process-wide std mutex is held across operation + append while the records are switched on; the value digest is FNV-1a over the value's bytes",
             "each shared access of fetch_cold / maybe_changed_after_cold is one atomic step; atomics are sequentially consistent; condvar semantics outside the model"],
         "theorems": rep["statements"] if rep else [],
@@ -431,7 +431,7 @@ def run_readers(ctx, own_kinds, what, note, nontrivial_desc):
     })
     ctx.coverage.update(fcov)
     ctx.assumptions = ["critical sections are atomic",
-                       "the CFetch guards hold under interference outside the CFetch2 fragment (static call lists, LOW durabilities)",
+                       "the memo writes are sound under interference also when the durability short-cut fires (proved without it: CFetch2 static, CFetchD dynamic call lists)",
                        "shuttle explores real interleavings of salsa's shuttle build"]
     ctx.write_evidence("proof")
     shutil.rmtree(out_root, ignore_errors=True)
